@@ -32,6 +32,18 @@ var offSet = func() map[string]bool {
 
 func off(k string) bool { return offSet[k] }
 
+func excluded(key string) { evid.R().Excluded(key) }
+
+// noGlue replaces an empty separator next to a comment by a blank unless this file may carry
+// comments glued to a neighbouring token (trigger of the open finding not-idempotent:whitespace:at-comment).
+func (g *fgen) noGlue(sp string) string {
+	if sp != "" || g.glueOK {
+		return sp
+	}
+	excluded("not-idempotent:whitespace:at-comment")
+	return " "
+}
+
 var depFiles = map[string]string{
 	"dep/alpha.proto": "syntax = \"proto3\";\npackage dep;\nmessage Alpha { string id = 1; }\n",
 	"dep/beta.proto":  "syntax = \"proto2\";\npackage dep;\nmessage Beta { optional string id = 1; }\n",
@@ -112,6 +124,11 @@ type fgen struct {
 	extendable []extTarget
 
 	allowEmptyCmt bool
+	glueOK        bool // comments may touch a neighbouring token (no blank between)
+	nameCmtOK     bool // comments between a compact option name and its '='
+	sepCmtOK      bool // comments next to a message-literal separator
+	mixSpelling   bool // custom file options may be spelled (x), (pkg.x) and (.pkg.x) in one file
+	fileOptStyle  int
 	blockEndOK    bool // line comments may contain "*/" (e.g. a glob `**/*.proto`)
 	crlf          bool
 	noisy         int // percentage of gaps that get noise
@@ -353,7 +370,11 @@ func (g *fgen) qual(name string) string {
 
 // typeRef renders a reference to the fully-qualified type fq (no leading dot in fq).
 func (g *fgen) typeRef(fq string, first bool) {
-	switch g.intn("refstyle", 0, 3) {
+	g.typeRefStyle(fq, first, g.intn("refstyle", 0, 3))
+}
+
+func (g *fgen) typeRefStyle(fq string, first bool, style int) {
+	switch style {
 	case 0:
 		g.dotted("."+fq, first)
 	case 1:
@@ -370,7 +391,15 @@ func (g *fgen) typeRef(fq string, first bool) {
 // optNameCustom emits `( pkg.name )`.
 func (g *fgen) optNameCustom(name string) {
 	g.p("(")
-	g.typeRef(g.qual(name), false)
+	style := g.intn("refstyle", 0, 3)
+	if strings.HasPrefix(name, "f_") && !g.mixSpelling && style != g.fileOptStyle {
+		// one spelling per file for file options (open finding: different spellings of one repeated option are re-sorted)
+		if (style == 0) != (g.fileOptStyle == 0) || (style == 1) != (g.fileOptStyle == 1) {
+			excluded("meaning:repeated-option-reordered:different-spelling")
+		}
+		style = g.fileOptStyle
+	}
+	g.typeRefStyle(g.qual(name), false, style)
 	g.p(")")
 }
 
@@ -1438,6 +1467,13 @@ func genFile(t *rapid.T) (string, Facts) {
 	g.custom = g.pct("custom", 45)
 	g.allowEmptyCmt = g.pct("emptycmt", 10)
 	g.crlf = g.pct("crlf", 5)
+	// trigger shapes of open findings are generated in a small share of the files (the rest is counted
+	// under excluded_by_construction) so that the search sees what lies behind them
+	g.glueOK = g.pct("glueok", 4) && !off("glue")
+	g.nameCmtOK = g.pct("namecmtok", 5) && !off("compact-name-trailing")
+	g.sepCmtOK = g.pct("sepcmtok", 5) && !off("msglit-sep")
+	g.mixSpelling = g.pct("mixspelling", 5) && !off("reorder")
+	g.fileOptStyle = g.intn("fileoptstyle", 0, 3)
 	g.blockEndOK = g.pct("blockend", 3) && !off("line-comment-block-end")
 	g.noisy = g.pick2("noisy", 5, 15, 30, 60)
 	switch g.intn("pkgform", 0, 4) {
@@ -1813,10 +1849,16 @@ func (g *fgen) gap(prev, cur *tk) string {
 	if prev == nil && off("leading-blank") {
 		return ""
 	}
-	if off("compact-name-trailing") && cur != nil && cur.tag == "compact-eq" {
+	if !g.nameCmtOK && cur != nil && cur.tag == "compact-eq" {
+		if g.intn("gapkindpeek", 0, 11) >= 4 {
+			excluded("comment-duplicated:compact-option-name")
+		}
 		return " "
 	}
-	if off("msglit-sep") && ((cur != nil && cur.tag == "lit-sep") || (prev != nil && prev.tag == "lit-sep")) {
+	if !g.sepCmtOK && ((cur != nil && cur.tag == "lit-sep") || (prev != nil && prev.tag == "lit-sep")) {
+		if g.intn("gapkindpeek", 0, 11) >= 4 {
+			excluded("comment-lost:message-literal-separator")
+		}
 		return " "
 	}
 	indent := ""
@@ -1900,29 +1942,23 @@ func (g *fgen) gap(prev, cur *tk) string {
 			g.facts.OddComments++
 		}
 		sp := g.pick("eolsp", " ", "", "  ", "\t")
-		if sp == "" && off("glue") {
-			sp = " "
-		}
+		sp = g.noGlue(sp)
 		return sp + c + nl + indent
 	case 6: // inline block comment
 		g.facts.OddComments++
 		sp := g.pick("insp", " ", "", must)
-		if sp == "" && off("glue") {
-			sp = " "
-		}
-		return sp + g.blockComment(false, indent) + g.pick("insp2", " ", "", " ")
+		sp = g.noGlue(sp)
+		return sp + g.blockComment(false, indent) + g.noGlue(g.pick("insp2", " ", "", " "))
 	case 7: // inline multi-line block comment
 		g.facts.OddComments++
-		return " " + g.blockComment(true, indent) + g.pick("aftermulti", " ", nl+indent, "")
+		return " " + g.blockComment(true, indent) + g.noGlue(g.pick("aftermulti", " ", nl+indent, ""))
 	case 8: // line comment in the middle of a statement
 		g.facts.OddComments++
 		return " " + g.lineComment() + nl + indent + g.pick("cont", "", "  ", "    ")
 	case 9: // several comments of mixed kinds
 		var s strings.Builder
 		sp := g.pick("mixsp", " ", "", nl+indent)
-		if sp == "" && off("glue") {
-			sp = " "
-		}
+		sp = g.noGlue(sp)
 		s.WriteString(sp)
 		k := g.intn("nmixed", 2, 4)
 		for j := 0; j < k; j++ {
@@ -1932,9 +1968,7 @@ func (g *fgen) gap(prev, cur *tk) string {
 				s.WriteString(g.lineComment() + nl + indent)
 			case 1:
 				after := g.pick("mixafter", " ", "", nl+indent, nl+nl+indent)
-				if after == "" && off("glue") {
-					after = " "
-				}
+				after = g.noGlue(after)
 				s.WriteString(g.blockComment(false, indent) + after)
 			default:
 				s.WriteString(g.blockComment(true, indent) + g.pick("mixafter", " ", nl+indent, nl+nl+indent))
